@@ -59,7 +59,7 @@ LEVEL = 'exploration'
 RULE = ('random diffusion configurations: model {single phase, homogenization x 5 averaging rules} x system {Ni-Cr, '
         'Ni-Cr-Al, Fe-Cr-Ni} x mesh 8-60 nodes (length 1e-5..2e-3 m, run time scaled from the model\'s own first '
         'step so that >=20 steps are planned) x initial profile per element {step, linear, bounded, single node, '
-        'function, data} x temperature {constant, time array, f(z,t) field} x boundary condition per element and '
+        'function, data, smooth tail (exp/gauss/erfc) decaying through or levelling off inside (min, (n+2)*min), data arrays and plateaus with trace values in that interval} x minComposition 1e-8..1e-3 x temperature {constant, time array, f(z,t) field} x boundary condition per element and '
         'side {closed (default or zero flux set explicitly), non-zero flux, fixed composition incl. value exactly 0 (perfect sink) alone/with all other boundary values zero/mixed with non-zero ones, draining flux on an empty node} x {Euler, RK4} x cache {on, off request, 3-5 digits} x 1-4 '
         'consecutive solve calls; balanced decks per dimension, pairings random in the seed. A case is non-trivial '
         'when >=10 steps were accepted, max|x_final-x_initial| > 1e-6 and the identity was evaluated on >=5 steps (not clamped); distinct by '
@@ -104,7 +104,7 @@ SYSTEMS = {
                        'homog': {'CR': (0.05, 0.45), 'NI': (0.03, 0.35)}}},
 }
 HFUNCS = ['wiener upper', 'wiener lower', 'hashin upper', 'hashin lower', 'lab']
-PROFILE_KINDS = ['step', 'linear', 'bounded', 'single', 'function', 'data']
+PROFILE_KINDS = ['step', 'linear', 'bounded', 'single', 'function', 'data', 'tail', 'trace_data', 'trace_plateau']
 
 
 # ================================================================================================
@@ -114,7 +114,11 @@ def _r(v, nd=6):
     return float(np.round(float(v), nd))
 
 
-def _draw_profile(rng, kind, lo, hi):
+def _g(v):
+    return float('%.6g' % float(v))
+
+
+def _draw_profile(rng, kind, lo, hi, minc=1e-8, nel=3):
     """Build steps (JSON) of one element; positions are relative coordinates u in [0, 1]."""
     u = lambda a, b: _r(rng.uniform(a, b))
     if kind == 'linear':
@@ -139,6 +143,36 @@ def _draw_profile(rng, kind, lo, hi):
         if rng.random() < 0.5:
             return [{'kind': 'function', 'f': 'tanh', 'a': _r(a), 'b': _r(b), 'u0': u(0.3, 0.7), 'w': u(0.03, 0.3)}]
         return [{'kind': 'function', 'f': 'sin', 'a': _r(a), 'b': _r(b), 'k': int(rng.integers(1, 4))}]
+    # ---- values just above the minimum composition: min ... (n_elements+2)*min (setup shifts by n_elements*min and clamps)
+    trace = lambda: _g(rng.uniform(1.05, nel + 1.9) * minc)
+    if kind == 'tail':
+        A = u(lo, hi)
+        shape = ['exp', 'gauss', 'erfc'][int(rng.integers(0, 3))]
+        if rng.random() < 0.5:
+            floor = 0.0                                   # decays through the critical interval down to 0.3*min
+            L = math.log(A / (0.3 * minc))
+            lam = 1.0 / L if shape == 'exp' else 1.0 / math.sqrt(L)
+        else:
+            floor = trace()                               # tail levels off on a trace plateau inside the interval
+            lam = float(rng.uniform(0.08, 0.3))
+        return [{'kind': 'function', 'f': 'tail', 'shape': shape, 'A': A, 'floor': floor, 'lam': _g(lam),
+                 'flip': bool(rng.random() < 0.5)}]
+    if kind == 'trace_data':
+        n = int(rng.integers(4, 8))
+        us = np.sort(rng.uniform(0.0, 1.0, n))
+        xs = [u(lo, hi) if rng.random() < 0.4 else trace() for _ in range(n)]
+        xs[int(rng.integers(0, n))] = trace()
+        return [{'kind': 'data', 'u': [_r(v) for v in us], 'x': xs}]
+    if kind == 'trace_plateau':
+        c = int(rng.integers(0, 3))
+        if c == 0:
+            a, b = (u(lo, hi), trace()) if rng.random() < 0.5 else (trace(), u(lo, hi))
+            return [{'kind': 'step', 'L': a, 'R': b, 'u': u(0.2, 0.8)}]
+        if c == 1:
+            a = rng.uniform(0.05, 0.6)
+            return [{'kind': 'linear', 'L': trace(), 'R': trace()},
+                    {'kind': 'bounded', 'value': u(lo, hi), 'u1': _r(a), 'u2': _r(a + rng.uniform(0.1, 0.35))}]
+        return [{'kind': 'linear', 'L': u(lo, hi), 'R': trace()}]
     if kind == 'data':
         n = int(rng.integers(3, 7))
         us = np.sort(rng.uniform(0.0, 1.0, n))
@@ -164,7 +198,7 @@ def plan(tier, seed):
         'pkind': _deck(rng, PROFILE_KINDS, n),
         'T': _deck(rng, ['const', 'array', 'field', 'const'], n),
         'bcmode': _deck(rng, ['closed', 'flux', 'comp', 'mixed', 'mixed', 'flux', 'comp', 'mixed', 'zero', 'zero'], n),
-        'minc': _deck(rng, [1e-8, 1e-8, 1e-7, 1e-6], n),
+        'minc': _deck(rng, [1e-8, 1e-8, 1e-8, 1e-7, 1e-6, 1e-5, 1e-4, 1e-3], n),
     }
     cases = []
     for i in range(n):
@@ -177,8 +211,8 @@ def plan(tier, seed):
         zlim = [zL, _r(zL + length, 12)]
         profiles = {}
         for k, e in enumerate(els):
-            kind = D['pkind'][i] if k == 0 else PROFILE_KINDS[int(rng.integers(0, 6))]
-            profiles[e] = _draw_profile(rng, kind, *win[e])
+            kind = D['pkind'][i] if k == 0 else PROFILE_KINDS[int(rng.integers(0, len(PROFILE_KINDS)))]
+            profiles[e] = _draw_profile(rng, kind, *win[e], minc=D['minc'][i], nel=len(els) + 1)
         # boundary conditions per element and side
         bc = {}
         mode = D['bcmode'][i]
@@ -274,6 +308,16 @@ def _zabs(case, u):
 def _func(case, s):
     zL, zR = case['zlim']
     L = zR - zL
+    if s['f'] == 'tail':
+        from scipy.special import erfc
+        A, floor, lam, flip, shape = s['A'], s['floor'], s['lam'], s['flip'], s['shape']
+
+        def tail(z):
+            v = (np.asarray(z, dtype=float) - zL) / L
+            v = (1.0 - v) if flip else v
+            g = np.exp(-v / lam) if shape == 'exp' else (np.exp(-(v / lam) ** 2) if shape == 'gauss' else erfc(v / lam))
+            return floor + A * g
+        return tail
     if s['f'] == 'tanh':
         a, b, u0, w = s['a'], s['b'], s['u0'], s['w']
         return lambda z: a + b * np.tanh(((np.asarray(z) - zL) / L - u0) / w)
@@ -399,6 +443,32 @@ def build_model(case, flux_values, ttot):
     elif T['kind'] == 'field':
         m.setTemperatureFunction(_temperature_callable(case, ttot))
     return m
+
+
+def _user_profile(case):
+    """The initial profile as the user specified it (before setup shifts/clamps it); evidence counters only."""
+    els = SYSTEMS[case['system']]['elements'][1:]
+    z = np.linspace(case['zlim'][0], case['zlim'][1], case['N'])
+    x = np.zeros((len(els), case['N']))
+    for k, e in enumerate(els):
+        for s in case['profiles'][e]:
+            kd = s['kind']
+            if kd == 'linear':
+                x[k] = np.linspace(s['L'], s['R'], len(z))
+            elif kd == 'step':
+                x[k] = np.where(z <= _zabs(case, s['u']), s['L'], s['R'])
+            elif kd == 'bounded':
+                x[k, (z >= _zabs(case, s['u1'])) & (z <= _zabs(case, s['u2']))] = s['value']
+            elif kd == 'single':
+                x[k, int(np.argmin(np.abs(z - _zabs(case, s['u']))))] = s['value']
+            elif kd == 'function':
+                x[k] = _func(case, s)(z)
+            elif kd == 'data':
+                x[k] = np.interp(z, [_zabs(case, u) for u in s['u']], s['x'])
+        for side, j in (('L', 0), ('R', -1)):
+            if case['bc'][e][side][0] == 'comp':
+                x[k, j] = case['bc'][e][side][1]
+    return x
 
 
 # ================================================================================================
@@ -590,7 +660,10 @@ class Monitor:
         self._bounds(x1, 'step')
         lo, hi = self.minc, 1.0 - self.minc
         # clamp events are per entry, the identity is per component: exclude exactly the components that were clamped
-        clipped_e = [bool(np.any(raw[e] < lo) or np.any(raw[e] > hi)) for e in range(raw.shape[0])]
+        # (the clamp is the documented deviation only for a step that started inside the range: a start state that is
+        # already outside - reported by 'bounds' - is not excused, conservation is judged from the post-setup state on)
+        clipped_e = [bool((np.any(raw[e] < lo) or np.any(raw[e] > hi)) and np.all(x0[e] >= lo) and np.all(x0[e] <= hi))
+                     for e in range(raw.shape[0])]
         # ---- fixed-composition nodes
         for e, side, j in self._fixed_sides():
             got = float(x1[e, j])
@@ -683,6 +756,17 @@ def run_case(case, R):
     try:
         probe = build_model(case, zero, 1.0e5)
         probe.setup()
+        # ---- bounds clause on the state right after the real setup() (the monitored run repeats it at its first step)
+        xs = np.array(probe.x, dtype=float)
+        mc = case['minComposition']
+        fin = bool(np.all(np.isfinite(xs)))
+        okb = fin and bool(np.all(xs >= mc)) and bool(np.all(xs <= 1.0 - mc))
+        if fin:
+            R.worst('bounds_excess', max(mc - float(np.min(xs)), float(np.max(xs)) - (1.0 - mc), 0.0))
+        R.check('bounds', okb, {'model': case['model'], 'iterator': case['iterator'], 'when': 'after setup',
+                                'kind': 'in range' if okb else ('nonfinite' if not fin else 'outside')},
+                step=0, call=0, min=np.min(xs), max=np.max(xs), lo=mc, hi=1.0 - mc,
+                nodes_outside=int(np.count_nonzero((xs < mc) | (xs > 1.0 - mc))))
         _, dt_est = probe.getFluxes()
         dt_est = float(dt_est)
         xb = np.array(probe.x, dtype=float)
@@ -731,6 +815,16 @@ def run_case(case, R):
                 flux[e][side] = 0.0
                 spec[k][side] = ('flux', 0.0)
     R.info.update({'dt_est': dt_est, 'ttot': ttot, 'dz': dz, 'flux': flux})
+    try:
+        x_user = _user_profile(case)
+        mc = case['minComposition']
+        nj = int(np.count_nonzero((x_user > mc) & (x_user < (nel + 1) * mc)))
+        R.info['initial_nodes_in_min_to_(n+1)min'] = nj
+        if nj:
+            R.observe('initial_nodes_just_above_min', nj)
+            R.observe('cases_with_initial_nodes_just_above_min')
+    except Exception:
+        pass
 
     # ---- pass 2: the monitored run
     from kawin.solver.Solver import SolverType  # noqa: F401  (documented alternative to a callable)
